@@ -96,6 +96,8 @@ func Assert(c bool, msg string) {
 func Reach(tag string) { Reached[tag]++ }
 func Fail(msg string)  { Failed = append(Failed, msg) }
 func Note(msg string)  {}
+func Show(tag string, x uint64) {}
+func ShowUFDiff(tag string, x uint64) {}
 func Bound(msg string) {}
 func ExpectPanic()     {}
 
